@@ -100,7 +100,7 @@ type Interp struct {
 	globals         map[*ssa.Global]*Cell
 	inited          map[*ssa.Package]bool
 	initing         bool
-	allocs          []*Term
+	allocs          []allocRec
 	callDepth       int
 	knownTag        string
 	observed        []obsItem
@@ -134,6 +134,11 @@ type Interp struct {
 	seqCap     int
 	deadline   time.Time
 	itoaTags   map[*ArrNode]*Term
+}
+
+type allocRec struct {
+	bytes *Term
+	fn    string
 }
 
 type obsItem struct {
